@@ -207,6 +207,15 @@ def precheck_weights(r: R, chk, quals: List[str], rule="PRECHECK"):
             before = [w for w in writes if w != cr.cfgnode and cr.cfgnode in ctx.cfg.reachable_from_succ(w, exc=False)]
             if not before:
                 continue  # the setter is the first write: its refusal leaves the curve untouched
+            # the value and the names it is a plain copy of (`newweights = computed`): a test of any of them is a test of the value
+            aliases = {x.id for x in ast.walk(val) if isinstance(x, ast.Name)}
+            grow = True
+            while grow:
+                grow = False
+                for a_ in ast.walk(ctx.fi.node):
+                    if isinstance(a_, ast.Assign) and len(a_.targets) == 1 and isinstance(a_.targets[0], ast.Name) and isinstance(a_.value, ast.Name) and a_.targets[0].id in aliases and a_.value.id not in aliases:
+                        aliases.add(a_.value.id)
+                        grow = True
             guards = []
             for g in r.raise_guards(ctx, ("ValueError",)):
                 exprs = [g[0].ast]
@@ -217,14 +226,13 @@ def precheck_weights(r: R, chk, quals: List[str], rule="PRECHECK"):
                 calls = [c for e_ in exprs for c in ast.walk(e_) if isinstance(c, ast.Call) and seg(c.func).endswith("find_roots")]
                 for c in calls:
                     names = {x.id for a in c.args for x in ast.walk(a) if isinstance(x, ast.Name)}
-                    vn = {x.id for x in ast.walk(val) if isinstance(x, ast.Name)}
-                    if names & vn:
+                    if names & aliases:
                         guards.append(g)
             # every path from a (non-None) definition of the value to a state write traverses the passing edge of the test
             from .common import reach_cut
 
-            vnames = {x.id for x in ast.walk(val) if isinstance(x, ast.Name)}
-            defs = [n for n in r.stmt_nodes(ctx) if isinstance(n.ast, ast.Assign) and any(isinstance(t, ast.Name) and t.id in vnames for t in n.ast.targets) and not (isinstance(n.ast.value, ast.Constant) and n.ast.value.value is None)]
+            vnames = aliases
+            defs = [n for n in r.stmt_nodes(ctx) if isinstance(n.ast, ast.Assign) and any(isinstance(t, ast.Name) and t.id in vnames for t in n.ast.targets) and not (isinstance(n.ast.value, ast.Constant) and n.ast.value.value is None) and not (isinstance(n.ast.value, ast.Name) and n.ast.value.id in vnames)]
             cut = {(g[0].id, g[1]) for g in guards}
             ok = bool(guards) and bool(defs)
             for d in defs:
@@ -239,11 +247,27 @@ def precheck_weights(r: R, chk, quals: List[str], rule="PRECHECK"):
 # ------------------------------------------------------------------------------------------------
 # REFINE-BOTH (C13)
 def refine_both(r: R, chk, qual: str, rule="REFINE-BOTH"):
+    from .common import expand_locals
+
     ctx = r.root(qual)
-    loops = [n for n in r.stmt_nodes(ctx) if n.kind == "for" and "zip(" in seg(n.ast.iter) and seg(n.ast.iter).count("ctrlpoints") >= 2]
+
+    class _Site:
+        def __init__(self, node, it):
+            self.id, self.ast, self.iter = node.id, node.ast, it
+
+    loops = [_Site(n, n.ast.iter) for n in r.stmt_nodes(ctx) if n.kind == "for" and "zip(" in seg(n.ast.iter) and seg(n.ast.iter).count("ctrlpoints") >= 2]
+    # the same comparison written as any(... for a, b in zip(...)) / all(...), possibly over a local holding the zip
+    for n in r.stmt_nodes(ctx):
+        if n.kind == "for" or not isinstance(n.ast, ast.stmt):
+            continue
+        for comp in ast.walk(n.ast):
+            if isinstance(comp, (ast.GeneratorExp, ast.ListComp)) and len(comp.generators) == 1:
+                it = expand_locals(ctx.fi, comp.generators[0].iter)
+                if "zip(" in seg(it, 400) and seg(it, 400).count("ctrlpoints") >= 2:
+                    loops.append(_Site(n, it))
     chk.floor(rule, f"point-by-point comparison loop in {qual}", len(loops), 1)
     for lp in loops:
-        names = [x.value.id for x in ast.walk(lp.ast.iter) if isinstance(x, ast.Attribute) and x.attr == "ctrlpoints" and isinstance(x.value, ast.Name)]
+        names = [x.value.id for x in ast.walk(lp.iter) if isinstance(x, ast.Attribute) and x.attr == "ctrlpoints" and isinstance(x.value, ast.Name)]
         for var in names:
             sets = [n for n in r.stmt_nodes(ctx) if isinstance(n.ast, ast.Assign) and any(isinstance(t, ast.Attribute) and t.attr == "knotvector" and isinstance(t.value, ast.Name) and t.value.id == var for t in n.ast.targets)]
             avoid = {n.id for n in sets}
